@@ -338,7 +338,12 @@ fn first_difference(l1: &[String], l2: &[String]) -> String {
 }
 
 fn report_divergence(ctx: &Ctx, d: Divergence) -> Violation {
+    // bounded effort: a scenario with a giant block costs seconds per execution
+    let deadline = std::time::Instant::now() + std::time::Duration::from_secs(120);
     let differs = |events: &[Event]| -> bool {
+        if std::time::Instant::now() > deadline && events.len() != d.events.len() {
+            return false;
+        }
         let (a, _) = digest_in(ctx, &d.env1.1, &d.setup1, events, false);
         let (b, _) = digest_in(ctx, &d.env2.1, &d.setup2, events, false);
         a != b
